@@ -582,6 +582,29 @@ func vC04Judge(c *vh.Case, res *vC04Res) {
 		}
 		c.Check(final != nil && vC04Rank(final) >= bestRank, "final-ranks-best", "final value %s (closed at +%v, err=%v) ranks below %s", map[bool]string{true: "<none>", false: vC04Short(final)}[final == nil], res.Close.Sub(res.Start), res.Err, bestDesc)
 	}
+	// (4b) quorum-ended searches: processValues must count quorum+1 values before it may abort, so when at most
+	// quorum+1 valid values had been supplied by the time the channel closed, every one of them was processed
+	// (also the one that completed the quorum, which arrives at the very instant the search ends) and the final
+	// value must rank at least as good as all of them.
+	if q := sc.Quorum; q > 0 && !sc.Offline && !res.Cancelled {
+		nv, top, topDesc := 0, -1, ""
+		for _, s := range res.Supplies {
+			if s.Valid && (s.Local || !s.VT.After(res.Close)) {
+				nv++
+				if rk := vC04Rank(s.Val); rk > top {
+					top = rk
+					topDesc = fmt.Sprintf("%s at +%v", vC04Short(s.Val), s.VT.Sub(res.Start))
+				}
+			}
+		}
+		if nv > 0 && nv <= q+1 {
+			var final []byte
+			if len(res.Emis) > 0 {
+				final = res.Emis[len(res.Emis)-1].Val
+			}
+			c.Check(final != nil && vC04Rank(final) >= top, "quorum-completing-value-counts", "quorum %d, %d valid values supplied by the close at +%v (all necessarily processed): final %s ranks below %s", q, nv, res.Close.Sub(res.Start), map[bool]string{true: "<none>", false: vC04Short(final)}[final == nil], topDesc)
+		}
+	}
 	// (5) nothing valid supplied => not found
 	if !anyAtAll {
 		ok := len(res.Emis) == 0
@@ -696,7 +719,7 @@ const vC04Rule = "PRNG networks (N 1-200, thorough up to 700; K in {1,2,3,5,8,20
 
 func TestVerif_C04_search(t *testing.T) {
 	vh.Run(t, vh.Spec{Prop: "C04", Unit: "search", Quick: 1200, Thorough: 40000, CostMs: 6, Rule: "SearchValue; " + vC04Rule,
-		Clauses: []string{"yielded-validates", "yielded-valid-and-supplied", "strictly-improving", "final-ranks-best", "nothing-valid-not-found", "other-key-record-seen", "rejected-record-seen"}},
+		Clauses: []string{"yielded-validates", "yielded-valid-and-supplied", "strictly-improving", "final-ranks-best", "quorum-completing-value-counts", "nothing-valid-not-found", "other-key-record-seen", "rejected-record-seen"}},
 		func(c *vh.Case) {
 			sc := vC04GenSc(c, "search")
 			c.Bubble(t, 30*time.Minute, "value-search-hang", func(t *testing.T) {
